@@ -2,7 +2,7 @@
 From Coq Require Import List NArith ZArith.
 From N0 Require Import Base.PyStr Base.PyVal Xpath.Dec Xpath.DecProofs Xpath.Token Xpath.TokenProofs
   Xpath.Find Xpath.FindProofs Xpath.Write Xpath.SpecProofs Xpath.WalkProofs Xpath.TokenizeProofs Xpath.EnumProofs
-  Xpath.FstrProofs Xpath.FanoutProofs Xpath.PredProofs Xpath.PredOpsProofs Xpath.PredNameOpsProofs.
+  Xpath.FstrProofs Xpath.FanoutProofs Xpath.PredProofs Xpath.PredOpsProofs Xpath.PredNameOpsProofs Xpath.TextSpellProofs.
 Import ListNotations.
 
 (* For a list of dict records reached by a concrete path P, 'P/[*]/f' returns the values
@@ -68,6 +68,32 @@ Theorem C06_predicate_eq_step :
   Ok (root, fanout_result re rl dflt (flat_map (sel_list (rec_select k f v)) (r0 :: items))).
 Proof. exact pred_lookup. Qed.
 Print Assumptions C06_predicate_eq_step.
+
+(* The explicit spelling 'P/k[text()=v]/../f' (the statement's "equivalent" form): a name step on the record list
+   fans out, k[text()=v] tests the field of each record (the resolver rewrites it into the quoted step
+   [text()=='v'] below the field), '..' re-resolves the found path back to the record, f is looked up there:
+   exactly the selection of P[k=v]/f (rec_select), in order; a miss when nothing is selected; tree unchanged. *)
+Theorem C06_text_spelling :
+  forall fuel root x re rl dflt toks p c r0 items segs yk fk k f v,
+  keys_good root ->
+  has_path_char x = true -> tokenize x = toks ++ [yk; s_dotdot; fk] ->
+  walks root toks p (Lst c (r0 :: items)) segs ->
+  split_name_index yk = Ok (k, IdxPred s_text op_eq (PvStr v)) -> plain_key k -> quoted_pred_ok s_text v ->
+  split_name_index fk = Ok (f, IdxNone) -> plain_key f ->
+  all_selectable k f v (r0 :: items) ->
+  2 * length toks + 2 * (length segs + 1) + 10 <= fuel ->
+  dict_get_core fuel root x re rl dflt =
+  Ok (root, fanout_result re rl dflt (flat_map (sel_list (rec_select k f v)) (r0 :: items))).
+Proof. exact text_spelling_lookup. Qed.
+Print Assumptions C06_text_spelling.
+
+Theorem C06_text_spelling_nonvacuous :
+  quoted_pred_ok s_text [97]%N /\
+  split_name_index [107; 91; 116; 101; 120; 116; 40; 41; 61; 97; 93]%N = Ok ([107]%N, IdxPred s_text op_eq (PvStr [97]%N)) /\
+  dict_get_core (fuel_for pr_root pr_x_text) pr_root pr_x_text true true LDefault
+  = Ok (pr_root, LVal (Lst true [Leaf (SInt 1); Leaf (SInt 3)])).
+Proof. exact text_spelling_example. Qed.
+Print Assumptions C06_text_spelling_nonvacuous.
 
 (* A record list that is empty: a predicate step on it is a miss for that list and nothing else (since the
    "fix:" commit 20793f6; before it the step raised IndexError there, which left an enclosing fan-out loop and
